@@ -4,7 +4,9 @@
   * compile time: `check_attrs` (attribute coherence) and the no-op `fn test<T: ZeroCopy>() {}`
     instantiated for every field type by the derived `_serialize_inner` of a zero-copy type;
   * run time: the constant `IS_ZERO_COPY` (`repr(C)` and all fields `IS_ZERO_COPY`), checked by
-    `serialize_zero` / `serialize_slice_zero` before anything of the value is written.
+    `serialize_zero` / `serialize_slice_zero`, and by the writer of `SerIter` (which writes its items itself, through
+    `serialize_zero_unchecked`), before anything of the value is written. That every writer with a zero-copy path calls the
+    check is a fact about the code, exercised by probe `c17_lying_leaf` through every container.
 -/
 import EpsModel.Derive
 namespace Eps
